@@ -52,6 +52,11 @@ class ScenarioController(vloop.Controller):
         self.hidden_tasks: set[asyncio.Task] = set()
         self.handle_log: list[tuple[int, str]] = []
         self.quiescent_at = -1
+        self.recorder: Recorder | None = None
+
+    def on_stop(self) -> None:
+        if self.recorder is not None:
+            self.recorder.closed = True
 
     def visible(self, kind: str, subject: Any) -> bool:
         if kind == "other":
